@@ -46,6 +46,20 @@ pub struct ImportAmbienceData {
     ignored_assigned_participants: Option<usize>,
 }
 
+#[cfg(feature = "verif")]
+impl ImportAmbienceData {
+    /// Verification hook: (event_id, track_id, track_name, ignored_inactive_courses, ignored_assigned_participants)
+    pub fn verif_fields(&self) -> (u64, u64, Option<String>, Option<usize>, Option<usize>) {
+        (
+            self.event_id,
+            self.track_id,
+            self.track_name.clone(),
+            self.ignored_inactive_courses,
+            self.ignored_assigned_participants,
+        )
+    }
+}
+
 /// Read course and participant data from an JSON event export of the CdE Datenbank
 ///
 /// This function takes a Reader (e.g. an open filehandle), reads its contents and interprets them
